@@ -66,6 +66,7 @@ class ActivationMonitor:
         self.ctx, self.fl = ctx, fl
         self.trace = None  # dict while an activation is being observed
         self.rejected = set()  # id(rule) of rules whose load the workload saw rejected
+        self.log = []  # (Activated object, degree copy, implication) added by the block activations of the current process()
 
     def install(self, probe):
         fl = self.fl
@@ -75,6 +76,11 @@ class ActivationMonitor:
         probe.wrap(fl.Rule, "activate_with", after=self._event("activate_with"))
         probe.wrap(fl.Rule, "trigger", before=self._trigger_begin, after=self._trigger_end)
         probe.wrap(fl.Consequent, "modify", before=self._modify_begin, after=self._modify_end)
+        probe.wrap(fl.Engine, "process", before=self._process_begin)
+
+    def _process_begin(self, args, kwargs):
+        self.log = []
+        return None
 
     def _before(self, args, kwargs):
         block = args[1]
@@ -138,6 +144,9 @@ class ActivationMonitor:
         if t is None or before is None:
             return
         added = sum(len(v.fuzzy.terms) - before[k] for k, v in t["outs"].items())
+        for k, v in t["outs"].items():
+            for act in v.fuzzy.terms[before[k] :]:
+                self.log.append((act, np.array(act.degree, dtype=float, copy=True), act.implication))
         who = t["in_trigger"]
         t["events"].append(("modify", who, added))
         t["appended_by"][who] = t["appended_by"].get(who, 0) + added
@@ -148,6 +157,15 @@ class ActivationMonitor:
         if t is None:
             return
         activation, block = args[0], args[1]
+        # what the blocks activated so far in this step have contributed stays as it was contributed
+        seen = set()
+        for act, deg, imp in self.log:
+            now = np.asarray(act.degree, dtype=float)
+            if id(act) in seen or act.implication is not imp or now.shape != deg.shape or not bool(np.all((now == deg) | ((now != now) & (deg != deg)))):
+                ctx.violation("a contribution made earlier in the step is changed by a later trigger (one activated-term object contributed twice)", {"term": act.term.name, "block": block.name}, [deg, str(imp)], [now, str(act.implication)])
+                self.log = []
+                break
+            seen.add(id(act))
         kind, params = params_of(fl, activation)
         rules = block.rules
         n = len(rules)
@@ -402,6 +420,32 @@ def run(ctx):
                 drive(ctx, fl, e, vals, rnd.sample(acts, 4), weights, form=rnd.choice(FORMS), route=rnd.choice(ROUTES), churn=rnd)
             if i < 2:
                 ctx.sample("random", {"rules": n, "weights": weights, "enabled": enabled, "loaded": loaded, "inputs": vals, "methods": [[k, list(p)] for k, p in acts[:4]]})
+        # one list of rule objects handed to two rule blocks with methods and operators of their own
+        for i, rnd in ctx.cases("shared rules", ctx.scale(30, 1500)):
+            n = rnd.randrange(2, 6)
+            weights = [rnd.choice([1, 0.5, 0.25]) for _ in range(n)]
+            e = make_engine(fl, n, weights, [True] * n, [True] * n, two_outputs=rnd.random() < 0.5)
+            first = e.rule_blocks[0]
+            methods = rnd.sample(all_methods(fl, n, (0.0, 0.25)), 2)
+            first.activation = getattr(fl, methods[0][0])(*methods[0][1])
+            e.rule_blocks.append(fl.RuleBlock("again", conjunction=fl.AlgebraicProduct(), disjunction=fl.AlgebraicSum(), implication=fl.AlgebraicProduct(), activation=getattr(fl, methods[1][0])(*methods[1][1]), rules=list(first.rules)))
+            for k, v in enumerate([rnd.choice([0.0, 0.25, 0.5, 1.0, rnd.randrange(0, 17) / 16]) for _ in range(n)]):
+                e.input_variables[k].value = v
+            try:
+                e.process()
+            except Exception as ex:
+                ctx.violation(f"processing two blocks that share their rule objects raised {type(ex).__name__}", {"methods": [m[0] for m in methods]}, "no error", repr(ex))
+            ctx.hit("workload:rule objects shared by two blocks")
+        # long blocks: more than 64 rules with a positive degree and many ties
+        for i, rnd in ctx.cases("long blocks", ctx.scale(3, 60)):
+            n = rnd.choice([66, 80, 100])
+            weights = [1] * n
+            e = make_engine(fl, n, weights, [True] * n, [True] * n)
+            acts = [("General", ()), ("Proportional", ())] + [(k, (m,)) for k in ("Highest", "Lowest") for m in (1, 3, 5, 17, 64, 65)] + [(k, (m, t)) for k in ("First", "Last") for m in (3, 65) for t in (0.0, 0.25)] + [("Threshold", (">=", 0.25))]
+            for _ in range(2):
+                vals = [rnd.choice([0.125, 0.25, 0.25, 0.5, 0.5, 0.5, 1.0, 0.0]) for _ in range(n)]
+                drive(ctx, fl, e, vals, acts, weights)
+            ctx.hit("workload:block of more than 64 rules")
         # degenerate blocks: no rules at all, or no loaded rule
         for i, rnd in ctx.cases("degenerate", 2):
             for kind, params in all_methods(fl, 2, (0.0, 0.5)):
@@ -439,7 +483,7 @@ def run(ctx):
             ctx.require(f"batch:{m}")
     for m in ("Highest", "Lowest", "First", "Last"):
         ctx.require(f"piece:{m}:tie", f"piece:{m}:n>eligible", f"piece:{m}:n<eligible", f"piece:{m}:disabled-rule", f"piece:{m}:unloaded-rule")
-    ctx.require("piece:Threshold:threshold-equals-a-degree", "piece:First:threshold-equals-a-degree", "event:activation instances reused", "piece:block without loaded rules", "event:a rule that took part in an activation is unloaded", "piece:NaN activation degree")
+    ctx.require("piece:Threshold:threshold-equals-a-degree", "piece:First:threshold-equals-a-degree", "event:activation instances reused", "piece:block without loaded rules", "event:a rule that took part in an activation is unloaded", "piece:NaN activation degree", "workload:rule objects shared by two blocks", "workload:block of more than 64 rules")
     for r in ROUTES:
         ctx.require("route:" + r)
     for f in FORMS:
